@@ -34,13 +34,13 @@ def _directions(fi, rk_stmt, cx):
     lp = loops[0]
     tend = rk_stmt.value.args[3] if len(rk_stmt.value.args) > 3 else None
     it = cx.resolve(lp.iter)
-    if isinstance(it, ast.Call) and n(it.func) == "enumerate" and isinstance(lp.target, ast.Tuple) and len(lp.target.elts) == 2 and isinstance(it.args[0], ast.List):
+    if isinstance(it, ast.Call) and n(it.func) == "enumerate" and isinstance(lp.target, ast.Tuple) and len(lp.target.elts) == 2 and isinstance(it.args[0], (ast.List, ast.Tuple)):
         idx, var = lp.target.elts
         if isinstance(tend, ast.Name) and isinstance(var, ast.Name) and var.id == tend.id:
             return [n(e_) for e_ in it.args[0].elts], n(idx)
         return [], None
     seq = None
-    if isinstance(it, ast.List) and all(isinstance(e_, ast.Constant) for e_ in it.elts):
+    if isinstance(it, (ast.List, ast.Tuple)) and all(isinstance(e_, ast.Constant) for e_ in it.elts):
         seq = [e_.value for e_ in it.elts]
     elif eqx(it, "range(2)"):
         seq = [0, 1]
@@ -50,7 +50,7 @@ def _directions(fi, rk_stmt, cx):
         inner = [st for st in lp.body if isinstance(st, ast.Assign) and isinstance(tend, ast.Name) and n(st.targets[0]) == tend.id]
         if inner:
             e = cx.resolve(inner[0].value)
-        if isinstance(e, ast.Subscript) and isinstance(e.value, ast.List) and len(e.value.elts) == 2 and eqx(e.slice, lp.target.id):
+        if isinstance(e, ast.Subscript) and isinstance(e.value, (ast.List, ast.Tuple)) and len(e.value.elts) == 2 and eqx(e.slice, lp.target.id):
             return [n(x) for x in e.value.elts], lp.target.id
     return [], None
 
@@ -327,7 +327,7 @@ def rules(chk: Check) -> None:
         ok = len(tgt) == 1 and all(isinstance(e_, ast.Name) for e_ in tgt[0].targets[0].elts[:2])
         if ok:
             H, G = (e_.id for e_ in tgt[0].targets[0].elts[:2])
-            ok = has(rets[0].value, f"scipylinalg.solve({H}, -{G}, assume_a='sym')") or has(rets[0].value, f"scipylinalg.solve({H}, -{G})")
+            ok = has(rets[0].value, f"scipylinalg.solve({H}, -{G}, assume_a='sym')", co) or has(rets[0].value, f"scipylinalg.solve({H}, -{G})", co)
     chk.ob("R11.5", fo.where(), "tracer ODE: d phi/dT = -H^{-1} d(grad V)/dT with H and the mixed derivative at the current (field, temperature)", ok, key="ode")
     fa = S.func("effectivePotential:EffectivePotential.allSecondDerivatives")
     chk.touch(fa.name)
